@@ -137,6 +137,15 @@ def audit_binning(rec: core.Recorder, b, *, op: str, detail=None, deep: bool = T
         sb = np.asarray(s.bins, dtype=float)
         if type(s).__name__ != "StaticBinning" or not np.array_equal(sb, bins):
             fail("as_static() does not give a StaticBinning over the same bins", ["as_static"])
+        else:
+            # == must look at the edges: same number of bins elsewhere is another binning, same edges is the same binning
+            span = float(bins[-1, 1] - bins[0, 0])
+            moved = type(s)(bins + span, includes_right_edge=bool(s.includes_right_edge))
+            same = type(s)(bins.copy(), includes_right_edge=bool(s.includes_right_edge))
+            if (s == moved) or (moved == s):
+                fail("binnings with the same number of bins but other edges compare ==", ["eq"])
+            if not (s == same):
+                fail("binnings with identical edges do not compare ==", ["eq"])
     except Exception as e:
         fail(f"as_static raises {type(e).__name__}", ["as_static"], error=str(e)[:100])
     if n >= 2:
